@@ -355,7 +355,7 @@ func checkMain(args []string) int {
 	nextID := 0
 	var inconclusive []string
 	raceSeen := map[string]bool{}
-	racePerLabel := map[string]int{}
+	racePool := map[string][]cand{}
 	for _, r := range results {
 		if r.err != "" || r.out == nil || r.out.Result == nil {
 			inconclusive = append(inconclusive, fmt.Sprintf("harness=%s reason=%s", r.spec.Fn, oneLine(r.err)))
@@ -364,13 +364,14 @@ func checkMain(args []string) int {
 		res := r.out.Result
 		for _, v := range res.Violations {
 			if v.Kind == "race" {
-				// one candidate per harness-level input signature, at most 8 per label
+				// one candidate per harness-level input signature; a diverse subset is chosen below
 				sig := v.Harness + "|" + v.Label + "|" + inputSignature(v.Model)
-				if raceSeen[sig] || racePerLabel[v.Harness+"|"+v.Label] >= 8 {
+				if raceSeen[sig] {
 					continue
 				}
 				raceSeen[sig] = true
-				racePerLabel[v.Harness+"|"+v.Label]++
+				racePool[v.Harness+"|"+v.Label] = append(racePool[v.Harness+"|"+v.Label], cand{v, r.spec, 0})
+				continue
 			}
 			cands = append(cands, cand{v, r.spec, nextID})
 			nextID++
@@ -385,6 +386,39 @@ func checkMain(args []string) int {
 		}
 		for _, ic := range res.Inconclusive {
 			inconclusive = append(inconclusive, fmt.Sprintf("harness=%s reason=%s (x%d)", r.spec.Fn, oneLine(ic.Reason), ic.Count))
+		}
+	}
+	// race candidates: per pair of racing functions at most 12 are replayed, chosen greedily so that
+	// each differs from those already chosen in as many harness-level inputs as possible (whether
+	// the Go race detector can confirm a candidate depends on the query shape)
+	var raceLabels []string
+	for k := range racePool {
+		raceLabels = append(raceLabels, k)
+	}
+	sort.Strings(raceLabels)
+	for _, k := range raceLabels {
+		pool := racePool[k]
+		var chosen []cand
+		for len(chosen) < 12 && len(pool) > 0 {
+			best, bestScore := 0, -1
+			for i, c := range pool {
+				score := 1 << 30
+				for _, d := range chosen {
+					if h := inputDistance(c.v.Model, d.v.Model); h < score {
+						score = h
+					}
+				}
+				if score > bestScore {
+					best, bestScore = i, score
+				}
+			}
+			chosen = append(chosen, pool[best])
+			pool = append(pool[:best], pool[best+1:]...)
+		}
+		for _, c := range chosen {
+			c.id = nextID
+			nextID++
+			cands = append(cands, c)
 		}
 	}
 	completedBy := map[string]int{}
@@ -815,7 +849,7 @@ func nativeReplay(repo, scratch, pkg, pkgName, intr string, harnessFiles, fns, s
 		if race {
 			// stop at the first report: the remaining cases are rerun one by one below
 			cmd.Env = append(cmd.Env, "GORACE=halt_on_error=1")
-			cmd.Env = append(cmd.Env, "VERIF_REPLAY_TRIES=40", "VERIF_AMPLIFY=64")
+			cmd.Env = append(cmd.Env, "VERIF_REPLAY_TRIES=10", "VERIF_AMPLIFY=32")
 		}
 		if mode == "amplify" {
 			cmd.Env = append(cmd.Env, "VERIF_AMPLIFY=128", "VERIF_REPLAY_TRIES=500")
@@ -883,6 +917,31 @@ func nativeReplay(repo, scratch, pkg, pkgName, intr string, harnessFiles, fns, s
 	}
 	os.Remove(bin)
 	return res, nil
+}
+
+// inputDistance: number of harness-level inputs in which two models differ.
+func inputDistance(a, b map[string]string) int {
+	d := 0
+	seen := map[string]bool{}
+	for _, m := range []map[string]string{a, b} {
+		for k := range m {
+			base := k
+			if i := strings.IndexByte(k, '#'); i >= 0 {
+				base = k[:i]
+			}
+			switch base {
+			case "sched", "maporder", "select", "crash", "fault", "__ops", "__tier":
+				continue
+			}
+			if !seen[k] {
+				seen[k] = true
+				if a[k] != b[k] {
+					d++
+				}
+			}
+		}
+	}
+	return d
 }
 
 func schedDependent(m map[string]string) bool {
